@@ -22,6 +22,8 @@ AppliedVariants(n) ==
   {<<>>} \cup {SubSeq(Names, 1, j) : j \in 1..n}                       \* prefixes
          \cup {SeriesN(n) \o <<"x.patch">>}                              \* longer than the series
          \cup (IF n >= 2 THEN {<<Names[2], Names[1]>>, <<Names[1], "x.patch">>, <<"x.patch">>, <<Names[1], Names[1]>>} ELSE {<<"x.patch">>})
+         \* edited / reordered / duplicated in a position that is not the last one, with a patch still to push
+         \cup (IF n >= 3 THEN {<<"x.patch", Names[2]>>, <<Names[2], Names[2]>>, <<Names[3], Names[2]>>} ELSE {})
 Goals == {[g |-> "default"], [g |-> "all"], [g |-> "count", n |-> 0], [g |-> "count", n |-> 2], [g |-> "count", n |-> 7]}
            \cup {[g |-> "name", s |-> Names[i]] : i \in 1..3} \cup {[g |-> "name", s |-> "x.patch"]}
            \cup {[g |-> "aname", s |-> Names[1]], [g |-> "aname", s |-> Names[2]], [g |-> "aname", s |-> "x.patch"], [g |-> "acount", n |-> 1]}
